@@ -333,6 +333,27 @@ def main(argv):
 
 
 def generic_replay(path):
+    """Print the recorded violation and, when it carries a program, re-run it now: real hidc output on
+    the verified VM (with the entitlement monitor for checked builds) next to the reference semantics."""
     with open(os.path.join(VERIF, path) if not os.path.isabs(path) else path) as f:
-        print(json.dumps(json.load(f), indent=1))
+        d = json.load(f)
+    v = d.get('violation') or {}
+    print(json.dumps({k: (x if k != 'source' else '<see below>') for k, x in v.items()}, indent=1, default=str)[:6000])
+    if d.get('broken_obligations'):
+        print('broken obligations:', json.dumps(d['broken_obligations'], indent=1)[:3000])
+    srcs = [(k, v[k]) for k in ('source', 'constant_form', 'variable_form', 'input') if isinstance(v.get(k), str) and '@is_you' in v.get(k, '')]
+    if not srcs:
+        return 0
+    import diffrun, hidrun
+    from diffrun import Cfg
+    for name, src in srcs:
+        print('----- %s -----' % name)
+        print(src)
+        cfg = Cfg(tuple(str(a) for a in v.get('args', ()) or ()), int(v.get('w', 2) or 2), int(v.get('stack', 300) or 300), bool(v.get('unchecked', False)))
+        (res,), = diffrun.run_units([(src, [cfg])], fuel=3_000_000, ref_fuel=3_000_000, procs=1, watch_labels='monitor')
+        t = hidrun.terminal(res.run)
+        print('now, on this tree:  args=%s w=%d stack=%d unchecked=%s' % (list(cfg.args), cfg.w, cfg.stack, cfg.unchecked))
+        print('  VM  :', t[0], t[1], repr(t[2][:400]), res.run.detail[:200], ('pc=%s' % res.run.pc) if res.run.kind in ('STOP', 'FAULT') else '')
+        print('  REF :', res.ref[0], res.ref[1], repr(res.ref[2][:400]), res.ref[3][:100])
+        print('  DIFF:', res.diff)
     return 0
